@@ -2,7 +2,7 @@
  * every clock read is a decision, default +1 tick (1 us), deviation = jump by 1 s). */
 #include "hcommon.h"
 #include <unistd.h>
-enum { FM_SLEEP, FM_TLOCK, FM_TJOIN, FM_TLOCKQ };
+enum { FM_SLEEP, FM_TLOCK, FM_TJOIN, FM_TLOCKQ, FM_LONG, FM_TWOSLEEP };
 /* deadline codes: 0 = one second in the past, 1 = now, 2 = now + 3 ticks, 3 = now + 8 ticks */
 typedef struct { int fam, a, dl, W, K; } prog_t;
 #define MAXP 200
@@ -13,6 +13,10 @@ static void build(void) {
   for (int tier = 0; tier < 2; tier++) for (int W = 1; W <= 2; W++) {
     int K = tier ? 3 : 2;
     for (int a = 0; a < 4; a++) add(tier, FM_SLEEP, a, 0, W, a == 3 ? 2 : K);        /* a: 0 nanosleep(0), 1 nanosleep(3 ticks), 2 usleep(5us), 3 sleep(0) */
+    /* durations of seconds on a coarse clock (0.7 s per read, deviation 1.6 s): a: 0 usleep(4294968) [just above 2^32 ns], 1 usleep(999999), 2 sleep(3), 3 nanosleep(2 s + 999999999 ns), 4 usleep(1000000) */
+    for (int a = 0; a < 5; a++) add(tier, FM_LONG, a, 0, W, 1);
+    /* two sleepers and a third, runnable thread queued behind them: it must get the worker while they sleep */
+    if (W == 1) { add(tier, FM_TWOSLEEP, 0, 0, 1, tier ? 2 : 1); add(tier, FM_TWOSLEEP, 1, 0, 1, 1); }
     for (int a = 0; a < 3; a++) for (int dl = 0; dl < 4; dl++) add(tier, FM_TLOCK, a, dl, W, (a == 2 || dl == 3) ? 2 : K);   /* a: 0 no holder, 1 holder yields once, 2 holder yields 3 times */
     /* timed lock against a holder AND queued lockers: when the holder leaves, the mutex is free although waiters are queued */
     for (int a = 1; a <= 2; a++) for (int dl = 2; dl < 4; dl++) add(tier, FM_TLOCKQ, a, dl, W, a == 1 ? 2 : 1);
@@ -29,6 +33,8 @@ static void describe(int tier, int prog, char * b, size_t n) {
   static const char * const tg[] = { "target already finished", "target yields once", "target yields 3 times" };
   switch (p->fam) {
   case FM_SLEEP: snprintf(b, n, "%s with a runnable sibling", sl[p->a]); break;
+  case FM_LONG: { static const char * const lg[] = { "usleep(4294968)", "usleep(999999)", "sleep(3)", "nanosleep(2.999999999 s)", "usleep(1000000)" }; snprintf(b, n, "%s on a coarse clock (0.7 s per read)", lg[p->a]); break; }
+  case FM_TWOSLEEP: snprintf(b, n, "two threads in %s and a runnable thread queued behind them on one worker", p->a ? "timedlock on a held mutex (deadline now+8 ticks)" : "nanosleep(6us)"); break;
   case FM_TLOCK: snprintf(b, n, "timedlock, %s, %s", ho[p->a], dl_name[p->dl]); break;
   case FM_TLOCKQ: snprintf(b, n, "timedlock, holder yields once and %d plain locker(s) queued behind it, %s", p->a, dl_name[p->dl]); break;
   default: snprintf(b, n, "timedjoin, %s, %s", tg[p->a], dl_name[p->dl]); break;
@@ -54,6 +60,18 @@ static void * holder(void * a) {
 static void * locker(void * a) { (void)a; myth_mutex_lock(&m); occ++; mv_point(&occ, sizeof(int)); MV_CHECK(occ == 1, "two threads hold the mutex"); occ--; myth_mutex_unlock(&m); return 0; }
 static void * target(void * a) { int y = (int)(long)a; for (int i = 0; i < y; i++) myth_yield(); mv_point(&tfin, sizeof(int)); tfin = 1; return (void *)777; }
 
+static volatile int third_ran;
+static void * third_body(void * a) { (void)a; mv_point(&third_ran, sizeof(int)); third_ran = 1; return 0; }
+static void * two_sleeper(void * a) {
+  struct timespec t0, t1; mv_clock_read(&t0);
+  if (a) { struct timespec dl; deadline(&dl, 3); int r = myth_mutex_timedlock(&m, &dl); MV_CHECK(r == ETIMEDOUT, "timedlock on a mutex held throughout returned %d", r); }
+  else { struct timespec rq = { 0, 6000 }; int r = myth_nanosleep(&rq, 0); MV_CHECK(r == 0, "nanosleep returned %d", r); }
+  mv_clock_read(&t1);
+  /* without a clock jump the wait went round several times, yielding each time: the queued third thread must have had its turn */
+  if (ts_ns(&t1) - ts_ns(&t0) >= 1000000000L) return (void *)1;
+  return (void *)(long)(third_ran ? 1 : 0);
+}
+
 static void run(int tier, int prog) {
   build(); cur = &P[tier][prog];
   mv_start(cur->W);
@@ -78,6 +96,35 @@ static void run(int tier, int prog) {
     if (sib_progress > p0) mv_cover(0);
     mv_point(&sib_stop, sizeof(int)); sib_stop = 1; myth_join(s, 0);
     mv_obs("slept %ld", want_ns);
+    break; }
+  case FM_LONG: {
+    mv_set_clock_step(700000000L, 1600000000L);
+    struct timespec t0, t1; mv_clock_read(&t0);
+    long long want_ns; long r;
+    switch (cur->a) {
+    case 0: want_ns = 4294968000LL; r = myth_usleep(4294968); break;
+    case 1: want_ns = 999999000LL; r = myth_usleep(999999); break;
+    case 2: want_ns = 3000000000LL; r = (long)myth_sleep(3); break;
+    case 3: { struct timespec rq = { 2, 999999999 }; want_ns = 2999999999LL; r = myth_nanosleep(&rq, 0); break; }
+    default: want_ns = 1000000000LL; r = myth_usleep(1000000); break;
+    }
+    mv_clock_read(&t1);
+    MV_CHECK(r == 0 || (cur->a == 4 && r == -1), "sleep function returned %ld", r);   /* usleep(1000000) may be refused (EINVAL) as POSIX allows */
+    if (r == 0) MV_CHECK(ts_ns(&t1) - ts_ns(&t0) >= want_ns, "sleep returned after %lld ns of virtual time, earlier than the requested %lld ns", (long long)(ts_ns(&t1) - ts_ns(&t0)), want_ns);
+    mv_set_clock_step(1000L, 1000000000L);
+    mv_obs("long sleep %d r=%ld", cur->a, r);
+    break; }
+  case FM_TWOSLEEP: {
+    /* parent-first creations: the third thread sits in the run queue below the two sleepers */
+    myth_thread_t th[3];
+    h_spawn(V_EX_PARENT_FIRST, &th[2], third_body, 0);
+    if (cur->a) myth_mutex_lock(&m);
+    h_spawn(V_EX_PARENT_FIRST, &th[0], two_sleeper, (void *)(long)cur->a);
+    h_spawn(V_EX_PARENT_FIRST, &th[1], two_sleeper, (void *)(long)cur->a);
+    for (int i = 0; i < 2; i++) { void * r = 0; myth_join(th[i], &r); MV_CHECK(r == (void *)1, "while two threads slept / waited with a deadline on the only worker, the third runnable thread was never scheduled (it ran only after both had finished)"); }
+    if (cur->a) myth_mutex_unlock(&m);
+    myth_join(th[2], 0);
+    mv_obs("twosleep %d", cur->a);
     break; }
   case FM_TLOCK: {
     myth_thread_t h = 0;
